@@ -36,7 +36,7 @@ META = dict(
                       "(c) N, S_z: 2-3 orbitals, S^2: 2 orbitals; (d) 4 qubits (2 electrons in 2 orbitals), pUCCD 2-3 qubits",
                 thorough="(a) n_orbs <= 6; (b) n_orbs <= 4 (S^2 penalty <= 3); (c) all three operators on 2-3 orbitals; "
                          "(d) 4 qubits, plus UCCSD on 6 qubits (2 electrons in 3 orbitals) for 4 of the 32 parameter-sign patterns, |theta| in [0.01, 3]"),
-    outside=["ADAPT (its operator pool is grown by a classical loop over measured gradients; not built here)",
+    outside=["which pool operators ADAPT's gradient loop selects (a classical loop over measured gradients; the ansatz is grown here with listed selections from the default pool, 4 spin-orbitals)",
              "S^2 after the JKMN encoding (JKMN uses a different basis-phase convention; covered through multiplicativity in C03)",
              "IEEE rounding; coefficients below the 1e-8..1e-12 drop thresholds (threshold-assume policy)",
              "ansatz registers wider than 6 qubits"],
@@ -267,6 +267,17 @@ def h_ansatz(env, which, n_mos=2, n_electrons=2, spin=0, utd=False, signs=None, 
     elif which in ("UCC1", "UCC3"):
         a = RUCC(1 if which == "UCC1" else 3)
         utd = True                                   # RUCC prepares |1010>: alpha_0 and beta_0 in the up-then-down register
+    elif which.startswith("ADAPT"):
+        # the ansatz as ADAPTSolver grows it: operators of the default fermionic pool (mapped as the solver maps them) added one
+        # by one; which operators the gradient loop would pick is immaterial - every listed selection is checked
+        from tangelo.toolboxes.ansatz_generator.adapt_ansatz import ADAPTAnsatz
+        from harness.c07 import _pool
+        picks = [int(x) for x in which.split(":")[1].split(",")]
+        pool = _pool("jw", utd)
+        a = ADAPTAnsatz(2 * n_mos, n_electrons, spin, {"mapping": "jw", "up_then_down": utd})
+        a.build_circuit()
+        for p in picks:
+            a.add_operator(copy.deepcopy(pool[p % len(pool)]))
     if signs is None:
         th = [env.real(f"t{i}", -3, 3) for i in range(a.n_var_params)]
     else:     # one sign pattern per shape (keeps the number of solver-explored sign branches at one)
@@ -367,6 +378,9 @@ def shapes(tier, seed):
     out.append(Shape("canary/pool", h_pool, dict(n_orbs=2, utd=False, canary=True), modules=(), canary=True))
     out.append(Shape("ansatz/pUCCD/2q", h_ansatz, dict(which="pUCCD"), modules=MODS, max_paths=64))
     out.append(Shape("ansatz/pUCCD/3q", h_ansatz, dict(which="pUCCD", n_mos=3), modules=MODS, max_paths=64))
+    for utd in (False, True):
+        for picks in ("0,1", "2,3", "3,0,2") + (("1,1", "0,1,2,3") if tier == "thorough" else ()):
+            out.append(Shape(f"ansatz/ADAPT/{picks}/utd{int(utd)}", h_ansatz, dict(which=f"ADAPT:{picks}", utd=utd), modules=MODS, max_paths=64))
     out.append(Shape("ansatz/UCC1", h_ansatz, dict(which="UCC1"), modules=MODS))
     out.append(Shape("ansatz/UCC3", h_ansatz, dict(which="UCC3"), modules=MODS))
     out.append(Shape("canary/ansatz/UCCSD", h_ansatz, dict(which="UCCSD", canary=True), modules=MODS, canary=True, max_paths=64))
